@@ -9,13 +9,19 @@ def run(res):
         model_files=["theories/Tools/FluentObs.v"],
         theorem_note="Properties/C18.v: C18_fields_exact_builder / C18_fields_exact / C18_fields_exact_headers / C18_fields_exact_emitted / C18_fields_exact_operation / "
                      "C18_fields_exact_protos (every field = argument of the last call that sets it, appends concatenated, else absent; "
-                     "messages built from the builder state at queue time), C18_queued_ops_stable, C18_ids (1,2,3,... per client), "
+                     "messages built from the builder state at queue time), C18_queued_ops_stable, C18_ids (1,2,3,... per fluent client over its whole life), "
+                     "C18_ids_increasing_across_restarts (strictly increasing, distinct, every id of an earlier client.Client below every id of a later one), "
+                     "C18_other_calls_keep_counter, C18_restart_keeps / C18_restart_fresh / C18_restart_fatal / C18_stop / C18_past_incarnations_stable "
+                     "(Start, operations, Stop, Start again: opCount, current election id and connection settings survive, queues are per client.Client), "
                      "C18_op_type, C18_election_stamp + C18_current_election_id + C18_current_mode",
         trusted=["Coq 8.16.1 kernel + vm_compute",
-                 "hand-written model Tools/Fluent.v of fluent/fluent.go and of client.Q / StartSending (validated on every run by the correspondence)",
-                 "harness vh-c18: recording spb.GRIBIClient stub (records the *ModifyRequest pointers handed to stream.Send), capturing testing.TB, "
+                 "hand-written model Tools/Fluent.v of fluent/fluent.go (builders, Modify calls, Start / Stop / restart) and of client.New / Q / StartSending / StopSending "
+                 "(validated on every run by the correspondence)",
+                 "harness vh-c18: recording spb.GRIBIClient stub, a fresh one per Start (records the *ModifyRequest pointers handed to stream.Send), capturing testing.TB, "
+                 "unsent operations read from Status().PendingTransactions of the client.Client in place before it is replaced, "
                  "protobuf -> Gallina printer (guarded by a mirror -> protobuf round trip with proto.Equal)"],
-        assumptions=["programs call Start before Modify()/StartSending and Start at most once successfully (otherwise the Go program panics on the nil client)",
+        assumptions=["programs call Start before Modify()/StartSending (otherwise the Go program panics on the nil client); Start / Stop may be repeated in any order",
+                     "StartSending on a stopped client.Client (after Stop, before the next Start) is not a program: Close has closed the sender's channel; skipped on both sides",
                      "one goroutine drives a client and its builders (no concurrent builder calls)",
                      "the aliasing clause (later calls never alter queued messages) is checked on the implementation only: deep copies at queue time, "
                      "re-compared after the rest of the program and after a storm of calls on every builder, sub-builder, client and argument slice"],
